@@ -51,6 +51,9 @@ var invalidNames = []string{
 	"./alice", "alice/", "x/../alice", "alice/.", "alice\n", "alice\x00", "al\x00ice", "ali ce", "ü", "alice\t",
 	"\x01", "a\x7f", "../store/alice", "../../store/alice", "alice/../root", "store/alice", "*", "a:b", "a,b", "a=b",
 	"../sibling-store/../store/root", "decoys/x", "../decoys/x", "alice.user", "root.admin/../alice",
+	// non-ASCII characters that case-fold or normalise to ASCII name characters, digits and letters of other scripts
+	"bo\u017fs", "\u212aarl", "\u017f", "\u212a", "alic\u00e9", "\u0661\u0662", "\uff41lice", "\u0130", "\u0131d", "al\u0131ce",
+	"\u00c5", "a\u0301", "\u03b1", "alice\u200b", "\u00e4lice", "\u24d0", "a\u00adb", "\u2160",
 }
 
 func suiteC03(c *ctx) {
